@@ -176,11 +176,11 @@ type hEvent struct {
 }
 
 type hConfig struct {
-	Name    string
-	Init    func(dir string) hModel // writes the initial project, returns the initial model
-	Events  []hEvent
-	Depth   int
-	Ignore  func(path string) bool // files that are not part of the state key
+	Name     string
+	Init     func(dir string) hModel // writes the initial project, returns the initial model
+	Events   []hEvent
+	Depth    int
+	Ignore   func(path string) bool // files that are not part of the state key
 	MaxTrans int
 }
 
